@@ -1161,6 +1161,22 @@ def untry(a):
         if n in VARIANT_PRESERVING:
             a = ('is', a[1][2][0], a[2])
             continue
+        if n in ('std::option::Option::ok_or', 'std::option::Option::ok_or_else') and a[2] in ('Ok', 'Err'):
+            a = ('is', a[1][2][0], 'Some' if a[2] == 'Ok' else 'None')
+            continue
+        if n == 'std::result::Result::ok' and a[2] in ('Some', 'None'):
+            a = ('is', a[1][2][0], 'Ok' if a[2] == 'Some' else 'Err')
+            continue
+        if n == 'std::result::Result::err' and a[2] in ('Some', 'None'):
+            a = ('is', a[1][2][0], 'Err' if a[2] == 'Some' else 'Ok')
+            continue
+        if n.endswith(('bool::then_some', 'bool::then')) and a[2] in ('Some', 'None'):
+            # c.then_some(v) is Some exactly when c holds
+            c = a[1][2][0]
+            truth = a[2] == 'Some'
+            while c[0] == 'un' and c[1] == 'Not':
+                c = c[2]; truth = not truth
+            return ('bool', c, truth)
         return a
     return a
 
